@@ -125,7 +125,10 @@ def run_cases(ctx, mod):
     for case in mod.cases(ctx):
         if ctx.full():
             break
+        t1 = time.time()
         safe_judge(ctx, mod, case)
+        if os.environ.get("VF_SLOW") and time.time() - t1 > float(os.environ["VF_SLOW"]):
+            open(os.environ.get("VF_SLOW_LOG", "/dev/shm/vf-slow.log"), "a").write("SLOW %.1fs %s\n" % (time.time() - t1, str(util.short(case))[:1500]))
         if twins is not None:
             # cases with the same structural signature as the one just judged (same shapes, lengths, common values,
             # numbers of entries) but other content, judged straight afterwards in the same process: everything the
